@@ -1561,8 +1561,16 @@ def corpus():
     def dtype_zoo(x):
         return (x.astype(jnp.bfloat16) * 2, x.astype(jnp.float16) + 1, (x * 10).astype(jnp.int8), jnp.uint32(7) + (x > 0), jnp.asarray(x, dtype=jnp.complex64) * (1 + 2j))
 
+    def weak_scalars(n, h, u, q):
+        # Python scalars are weakly typed: they adopt the narrow dtype of the array they meet
+        a = u + n
+        b = q * h
+        c = jax.lax.cond(n > 2, lambda t: t + n, lambda t: t - n, u[0])
+        return a, b, c
+
     key = jax.random.key(20260921)
     cases = [
+        ("weak-python-scalars", weak_scalars, (250, 1.0005, jnp.asarray([10, 11, 21], dtype=jnp.uint8), jnp.asarray([0.1, 0.3, 0.7], dtype=jnp.float16))),
         ("prng", prng, (key, f32(1.5))),
         ("prng-loop", prng_loop, (key, f32(0.75))),
         ("transforms-inside", transforms_inside, (f32(0.625), f32([0.5, -1.25, 2.0]))),
